@@ -27,3 +27,20 @@ Definition pool_clean (s : st) : Prop := forall k, In k (s_idle s) -> clean k.
 (* PipelineClient: what a call that got w.done with a nil error was given *)
 Definition p_response_of (s : pst) (id : nat) (kd : kind) (g : list tsym) : Prop :=
   exists r, In (id, r) (p_log s) /\ wf_resp r = true /\ g = twire id kd r.
+
+(* The pooled bufio.Reader a call reads its response through (hc.AcquireReader ... hc.ReleaseReader).  A body stream returned to the
+   caller keeps reading through it, so it must stay out of the pool - and out of every other call's hands - until the stream is
+   closed. *)
+Definition holds_reader (th : thread) : option nat :=
+  match th with
+  | TRun x PAcq _ => None
+  | TRun x _ _ => x_rd x
+  | _ => None
+  end.
+Definition readers_owned (s : st) : Prop :=
+  (* every call past AcquireReader - reading the head, the body, or having returned a body stream not closed yet - has a reader *)
+  (forall t x p k, s_thr s t = TRun x p k -> p <> PAcq -> exists r, holds_reader (s_thr s t) = Some r) /\
+  (* which is not in the pool *)
+  (forall t r, holds_reader (s_thr s t) = Some r -> ~ In r (s_rfree s)) /\
+  (* and is nobody else's *)
+  (forall t1 t2 r, holds_reader (s_thr s t1) = Some r -> holds_reader (s_thr s t2) = Some r -> t1 = t2).
